@@ -42,6 +42,7 @@ type Clause struct {
 type LoopSpec struct {
 	Invariants []*Clause
 	Modifies   []*Clause
+	Steps      []*Clause // transition properties of one iteration (checked at the back edge only)
 }
 
 type FnParamSpec struct {
@@ -475,6 +476,12 @@ func (c *Contract) addClause(text string, line int, file string) error {
 				return err
 			}
 			ls.Modifies = append(ls.Modifies, cl)
+		case "step":
+			cl, err := mk("step", rest2)
+			if err != nil {
+				return err
+			}
+			ls.Steps = append(ls.Steps, cl)
 		default:
 			return fmt.Errorf("unknown loop clause %q", sub)
 		}
